@@ -167,7 +167,7 @@ class Check:
             for k, v in res.fn_hits.items(): fn_hits[k] = fn_hits.get(k, 0) + v
             for k, v in res.model_hits.items(): model_hits[k] = model_hits.get(k, 0) + v
             samples.extend({'part': part.name, **s} for s in res.samples[:3])
-            vac = [c for c in part.required_classes if res.classes.get(c, 0) == 0]
+            vac = [c for c in part.required_classes if res.classes.get(c, 0) == 0] if (res.exhaustive or self.tier == 'quick') else []     # a capped thorough part has not seen everything
             ep = dict(name=part.name, bounds=part.bounds, paths=res.paths, infeasible_prefixes=res.infeasible, solver_queries=res.solver_calls,
                       solver_time_s=round(res.solver_time, 2), obligations=res.obligations, exhaustive=res.exhaustive, paths_left=res.left,
                       wall_s=round(time.time() - t, 1), coverage_classes=res.classes, max_decisions=res.max_decisions,
